@@ -3,6 +3,7 @@ package props
 import (
 	"bytes"
 	"fmt"
+	"sort"
 	"strconv"
 	"strings"
 	"sync"
@@ -33,18 +34,20 @@ const (
 
 // SyncEnv is scenario SYNC: one DbSyncer between a master model and a target model.
 type SyncEnv struct {
-	C     *core.Ctx
-	S     *simrt.Sim
-	T     *tape.Tape
-	Net   *simnet.Net
-	Src   *modelredis.Master
-	Tgt   *modelredis.Server
-	LC    *env.LogCapture
-	Tool  *simrt.Proc
-	Tools []*simrt.Proc
-	DS    *dbSync.DbSyncer
-	Node  slot.SyncNode
+	C       *core.Ctx
+	S       *simrt.Sim
+	T       *tape.Tape
+	Net     *simnet.Net
+	Src     *modelredis.Master
+	MoreSrc []*modelredis.Master // further sources (AddSource)
+	Tgt     *modelredis.Server
+	LC      *env.LogCapture
+	Tool    *simrt.Proc
+	Tools   []*simrt.Proc
+	DS      *dbSync.DbSyncer
+	Node    slot.SyncNode
 	// Phase of the tool (base.Status) when each target connection was opened, by server endpoint id
+	ConnInc    map[int]int // tool incarnation (len(Tools)) that opened each target connection
 	ConnPhase  map[int]string
 	TgtClients []*simnet.Conn // the tool's endpoints of its target connections, in dial order
 }
@@ -58,8 +61,10 @@ func NewSyncEnv(c *core.Ctx, s *simrt.Sim, lc *env.LogCapture) *SyncEnv {
 	e.Tgt = modelredis.NewServer(s, e.Net, "target", tgtAddr)
 	e.Tgt.Password = tgtPassword
 	e.ConnPhase = map[int]string{}
+	e.ConnInc = map[int]int{}
 	e.Tgt.L.OnAccept = func(cl, sv *simnet.Conn) {
 		e.ConnPhase[sv.ID] = base.Status
+		e.ConnInc[sv.ID] = len(e.Tools)
 		e.TgtClients = append(e.TgtClients, cl)
 	}
 	conf.Options.SourceAddressList = []string{srcAddr}
@@ -81,11 +86,55 @@ func (e *SyncEnv) StartTool() {
 	e.Tools = append(e.Tools, p)
 	e.Tool = p
 	node := e.Node
+	sem := semaphore.NewWeighted(int64(conf.Options.SourceRdbParallel))
 	e.S.GoProc(p, "tool-main", func() {
-		ds := dbSync.NewDbSyncer(&node, conf.Options.HttpProfile, semaphore.NewWeighted(int64(conf.Options.SourceRdbParallel)))
+		ds := dbSync.NewDbSyncer(&node, conf.Options.HttpProfile, sem)
 		e.DS = ds
 		ds.Sync()
 	})
+	for i, m := range e.MoreSrc {
+		nd := e.Node
+		nd.Id = i + 1
+		nd.Source = m.Addr
+		e.S.GoProc(p, fmt.Sprintf("tool-main-%d", i+1), func() {
+			dbSync.NewDbSyncer(&nd, conf.Options.HttpProfile+nd.Id, sem).Sync()
+		})
+	}
+}
+
+// AddSource adds one more master model; StartTool then runs one DbSyncer per source in the same tool process, the way
+// sync mode does for several source addresses (node ids 0,1,...).
+func (e *SyncEnv) AddSource() *modelredis.Master {
+	i := len(e.MoreSrc) + 1
+	addr := fmt.Sprintf("10.0.0.%d:6379", 10+i)
+	m := modelredis.NewMaster(e.S, e.Net, fmt.Sprintf("source-%d", i), addr)
+	m.Password = srcPassword
+	m.RunID = strings.Repeat(fmt.Sprintf("%02x", 0x40+i), 20)
+	e.MoreSrc = append(e.MoreSrc, m)
+	conf.Options.SourceAddressList = append(conf.Options.SourceAddressList, addr)
+	return m
+}
+
+// CommandsByConn groups what the target applied by connection, minus the tool's bookkeeping (SELECT, PING, INFO,
+// checkpoint fields): with several syncers in one process base.Status no longer tells the phases apart.
+func (e *SyncEnv) CommandsByConn() (ids []int, by map[int][]modelredis.Applied) {
+	by = map[int][]modelredis.Applied{}
+	for _, a := range e.Tgt.Applied {
+		switch a.Name() {
+		case "select", "ping", "info", "config", "auth":
+			continue
+		case "hset", "hdel", "hgetall", "exists":
+			if len(a.Args) >= 2 && bytes.HasPrefix(a.Args[1], []byte("redis-shake-checkpoint")) {
+				continue
+			}
+		}
+		if _, ok := by[a.NetID]; !ok {
+			ids = append(ids, a.NetID)
+		}
+		by[a.NetID] = append(by[a.NetID], a)
+	}
+	sort.Ints(ids)
+	return
 }
 
 // ToolAborted reports whether the current incarnation died on its own (os.Exit / Go panic).
@@ -156,7 +205,7 @@ type StreamOpts struct {
 	NoScripts   bool
 	NoNoise     bool // no ping / hello / opinfo / newlines
 	KeyPrefixes []string
-	StartDB     int // db selected at the start of the stream (-1: none, stream starts with SELECT)
+	StartDB     int  // db selected at the start of the stream (-1: none, stream starts with SELECT)
 	FewBarriers bool // no MULTI/EXEC and no SELECT after the first one (nothing forces a flush)
 	MinCmds     int
 }
@@ -460,9 +509,23 @@ func (e *SyncEnv) Diag() []string {
 // IncrLog returns the commands applied on incremental-phase connections, minus the tool's bookkeeping.
 func (e *SyncEnv) IncrLog() []modelredis.Applied {
 	var out []modelredis.Applied
+	// An incarnation opens its incremental connection last. base.Status alone can mislabel a restore worker's
+	// connection: after a source reconnect during the RDB transfer the tool sets the status to "incr" while the full
+	// phase is still running. So: of the connections labelled incr/reopen, only the last one of each incarnation counts.
+	lastOf := map[int]int{}
+	for id, ph := range e.ConnPhase {
+		if ph == "incr" || ph == "reopen" {
+			if inc := e.ConnInc[id]; id > lastOf[inc] {
+				lastOf[inc] = id
+			}
+		}
+	}
 	for _, a := range e.Tgt.Applied {
 		if ph := e.ConnPhase[a.NetID]; ph != "incr" && ph != "reopen" {
 			continue // null/waitfull: checkpoint loader; full: restore workers
+		}
+		if lastOf[e.ConnInc[a.NetID]] != a.NetID {
+			continue
 		}
 		switch a.Name() {
 		case "select", "ping":
